@@ -61,6 +61,10 @@ Sensitivity (scratch copies, quick tier, seed 1):
     http.cookies.Morsel._reserved of the running Python in display / upper / capitalised / lower spelling
     (Expires, Max-Age, Secure, HttpOnly, Version, Comment ..., 24 spellings + 2 unknown ones) x 23 payloads, and the
     enumerated "legacy" part runs each alone and on top of explicit parameters via set / signed / clear (1372 cases).
+  * web.py the forbidden-character class for the deprecated Expires= keyword lost the semicolon:
+    Expires="<date>; Domain=evil.example" accepted, attribute injected -> caught (attributes_differ; "legacy" and the new
+    "attr_chars" part: 16 characters - ; , SP HTAB CR LF NUL US DEL NEL NBSP " \\ = % LS - at start / middle / end /
+    followed by " Domain=evil.example" of every explicit attribute and every deprecated keyword spelling).
   * web.py set_cookie builds its morsel in ONE class-level SimpleCookie shared by all handlers and pops it at the end:
     a call that is refused late leaves its half-built morsel (Domain, HttpOnly ...) behind and the next valid call for
     that name - same request or a later one - is emitted with those attributes -> caught at seeds 1,2,3
@@ -874,11 +878,31 @@ def legacy_sweep():
             yield [("clear", "a", "", {"legacy": {k: v}})]
 
 
-PARTS = {"main": run_case, "legacy": run_case, "shapes": run_case}
+SWEEP_CHARS = [";", ",", " ", "\t", "\r", "\n", "\0", "\x1f", "\x7f", "\x85", "\xa0", '"', "\\", "=", "%", "\u2028"]
+
+
+def attr_char_sweep():
+    """';' ',' space, controls and the edge characters of the classes through EVERY cookie attribute value: the
+    explicit parameters and each deprecated keyword spelling, at the start / middle / end of an otherwise valid value."""
+    stems = {"expires": "Wed, 01 Jan 2030 00:00:00 GMT", "max-age": "5", "max_age": "5"}
+    for c in SWEEP_CHARS:
+        for make in (lambda v: c + v, lambda v: v[:2] + c + v[2:], lambda v: v + c, lambda v: v + c + " Domain=evil.example"):
+            for k in ("domain", "path", "samesite"):
+                yield [("set", "a", "v", {k: make({"domain": "example.com", "path": "/dir", "samesite": "Lax"}[k])})]
+            yield [("clear", "a", "", {"domain": make("example.com")})]
+            yield [("signed", "a", "v", {"path": make("/dir")})]
+            for k in LEGACY_KEYS:
+                if k.lower() in FLAGS:
+                    continue
+                yield [("set", "a", "v", {"legacy": {k: make(stems.get(k.lower(), "value"))}})]
+
+
+PARTS = {"main": run_case, "legacy": run_case, "shapes": run_case, "attr_chars": run_case}
 
 
 def main(ctx):
     ctx.run_replays(PARTS)
     ctx.enumerate(shape_cases(), run_case, name="shapes")
     ctx.enumerate(legacy_sweep(), run_case, name="legacy")
+    ctx.enumerate(attr_char_sweep(), run_case, name="attr_chars")
     ctx.explore(case_s, run_case, ctx.n(1500, 80000), name="main")
